@@ -202,7 +202,11 @@ type FlowResult struct {
 	RecvErr   error
 	RecvErrT  time.Duration
 	LastRecvT time.Duration
-	mu        sync.Mutex
+	// SenderDone / ReceiverDone are set when the respective application
+	// goroutine has returned from its last call.
+	SenderDone   atomic.Bool
+	ReceiverDone atomic.Bool
+	mu           sync.Mutex
 }
 
 // Delivered returns the number of messages received so far.
@@ -228,6 +232,7 @@ func RunFlow(from, to *gbn.GoBackNConn, spec FlowSpec, t0 time.Time) (*FlowResul
 	wg.Add(2)
 	go func() {
 		defer wg.Done()
+		defer res.SenderDone.Store(true)
 		for i := 0; i < spec.Count; i++ {
 			if spec.Gap != nil {
 				if g := spec.Gap(i); g > 0 {
@@ -249,6 +254,7 @@ func RunFlow(from, to *gbn.GoBackNConn, spec FlowSpec, t0 time.Time) (*FlowResul
 	}()
 	go func() {
 		defer wg.Done()
+		defer res.ReceiverDone.Store(true)
 		for i := 0; i < spec.Count; i++ {
 			b, err := to.Recv()
 			now := time.Since(t0)
